@@ -3,7 +3,7 @@ use super::c09::class_of;
 use super::{scale, st, PropDef, Stratum};
 use crate::codec::Enc;
 use crate::ctx::{hex_trunc, Ctx, Tier};
-use crate::gen::symver::{emit, gen_model, model_definition, model_requirement, VersionBytes, VersionModel};
+use crate::gen::symver::{gen_model, model_definition, model_requirement, VersionBytes, VersionModel};
 use elf::endian::{AnyEndian, BigEndian, EndianParse, LittleEndian};
 use elf::gnu_symver::{SymbolVersionTable, VerDefIterator, VerNeedIterator, VersionIndexTable};
 use elf::string_table::StringTable;
@@ -28,6 +28,7 @@ fn setup(ctx: &mut Ctx) {
     ctx.floor("def:multiple-names", 200);
     ctx.floor("via:ElfBytes", 500);
     ctx.floor("via:ElfStream", 500);
+    ctx.floor("via:separate-strtabs-for-verneed-and-verdef", 100);
     for e in Enc::ALL {
         ctx.floor(&format!("enc:{}", e.name()), 50);
     }
@@ -45,7 +46,23 @@ fn strata(t: Tier) -> Vec<Stratum> {
 /// Judge every query of a version table against the model.
 pub fn judge<E: EndianParse>(ctx: &mut Ctx, via: &str, m: &VersionModel, table: &SymbolVersionTable<'_, E>) -> bool {
     let n = m.versym.len();
-    for i in (0..n + 3).chain([usize::MAX / 2, usize::MAX - 1, usize::MAX]) {
+    // in-range indices, each followed by indices that alias it modulo 2^16 / 2^32 (a query must not depend on
+    // what was asked before), then the far out-of-range ones
+    let mut order: Vec<usize> = Vec::new();
+    for i in 0..n + 3 {
+        order.push(i);
+        if i < n && i % 3 == 0 {
+            order.push(i.wrapping_add(1 << 16));
+            #[cfg(target_pointer_width = "64")]
+            {
+                order.push(i.wrapping_add(1 << 32));
+                order.push(i.wrapping_add(5 << 32));
+            }
+            order.push(i | (1usize << (usize::BITS - 1)));
+        }
+    }
+    order.extend([usize::MAX / 2, usize::MAX - 1, usize::MAX]);
+    for i in order {
         ctx.evals(2);
         let req = table.get_requirement(i);
         let def = table.get_definition(i);
@@ -131,8 +148,9 @@ pub fn judge<E: EndianParse>(ctx: &mut Ctx, via: &str, m: &VersionModel, table: 
 fn standalone<E: EndianParse>(ctx: &mut Ctx, e: E, enc: Enc, m: &VersionModel, vb: &VersionBytes) {
     let class = class_of(enc);
     let strs = StringTable::new(&vb.strtab);
+    let dstrs = StringTable::new(vb.strtab_def.as_deref().unwrap_or(&vb.strtab));
     let needs = if m.has_needs { Some((VerNeedIterator::new(e, class, m.needs.len() as u64, 0, &vb.verneed), strs)) } else { None };
-    let defs = if m.has_defs { Some((VerDefIterator::new(e, class, m.defs.len() as u64, 0, &vb.verdef), strs)) } else { None };
+    let defs = if m.has_defs { Some((VerDefIterator::new(e, class, m.defs.len() as u64, 0, &vb.verdef), dstrs)) } else { None };
     let table = SymbolVersionTable::new(VersionIndexTable::new(e, class, &vb.versym), needs, defs);
     judge(ctx, "standalone", m, &table);
 }
@@ -163,7 +181,8 @@ fn run(ctx: &mut Ctx, si: usize, _case: u64) {
         0 | 1 => {
             let m = if si == 0 { gen_model(&mut ctx.rng, 6, 5, 6) } else { gen_model(&mut ctx.rng, 40, 20, 40) };
             let scattered = ctx.rng.bool();
-            let vb = emit(enc, &m, &mut ctx.rng, scattered);
+            let split = ctx.rng.chance(1, 3);
+            let vb = crate::gen::symver::emit_opt(enc, &m, &mut ctx.rng, scattered, split);
             note_model(ctx, enc, &m, &vb);
             ctx.sample(|| format!("{} needs={} auxes={} defs={} versym={} scattered={} any={} verneed={}", enc.name(), m.needs.len(), m.needs.iter().map(|n| n.auxes.len()).sum::<usize>(), m.defs.len(), m.versym.len(), scattered, any, hex_trunc(&vb.verneed, 32)));
             match (any, enc.big) {
@@ -183,8 +202,12 @@ fn via_file(ctx: &mut Ctx, enc: Enc, _any: bool) {
     use crate::gen::elf::{build, ObjSpec, Part, Sec};
     let m = gen_model(&mut ctx.rng, 6, 5, 6);
     let scattered = ctx.rng.bool();
-    let vb = emit(enc, &m, &mut ctx.rng, scattered);
+    let split = ctx.rng.chance(1, 2);
+    let vb = crate::gen::symver::emit_opt(enc, &m, &mut ctx.rng, scattered, split);
     note_model(ctx, enc, &m, &vb);
+    if split {
+        ctx.count("via:separate-strtabs-for-verneed-and-verdef");
+    }
     let mut spec = ObjSpec::new(enc);
     spec.max_gap = [0usize, 4, 9][ctx.rng.usize_below(3)];
     let mut order = [Part::Phdrs, Part::Bodies, Part::Shdrs];
@@ -194,6 +217,10 @@ fn via_file(ctx: &mut Ctx, enc: Enc, _any: bool) {
         spec.add(Sec::new(b".text", k::SHT_PROGBITS, ctx.rng.bytes(9)));
     }
     let verstr = spec.add(Sec::new(b".gnu.verstr", k::SHT_STRTAB, vb.strtab.clone()));
+    let defstr = match &vb.strtab_def {
+        Some(t) => spec.add(Sec::new(b".gnu.defstr", k::SHT_STRTAB, t.clone())),
+        None => verstr,
+    };
     // the three version sections in a random order
     let mut kinds = vec![0u8];
     if m.has_needs {
@@ -219,7 +246,7 @@ fn via_file(ctx: &mut Ctx, enc: Enc, _any: bool) {
             }
             _ => {
                 let mut vd = Sec::new(b".gnu.version_d", k::SHT_GNU_VERDEF, vb.verdef.clone());
-                vd.link = verstr as u32;
+                vd.link = defstr as u32;
                 vd.info = m.defs.len() as u32;
                 spec.add(vd);
             }
